@@ -32,6 +32,25 @@ def beaconStep (t : List String) (implObs : String) : Option (String × String) 
       let text := (encode env peers (hour % 65536)).getD ['!']
       some (s!"text={String.ofList text} begin={String.ofList (beginMarker env)} end={String.ofList (endMarker env)}", if implObs = "panic" then "FAIL panic" else "-")
     | _, _, _ => some ("bad-op", "-")
+  | ["bdec", pw, now, ttl, text, lists] =>
+    -- the text is said to contain the beacons of these peer lists (`;`-separated), made with this password at hour `now`.  Every list whose beacon
+    -- — as the model's encoder writes it — really is a part of the text must be among the extracted peers, whatever surrounds or overlaps it (C17)
+    match Bytes.ofHex pw, now.toNat?, ttlOf ttl, utf8Text text with
+    | some pw, some now, some ttl, some text =>
+      let env := beaconEnv pw
+      let implGot := ((field implObs "got").bind parseSocks).getD []
+      let infixC (l big : List Char) : Bool := (List.range (big.length + 1)).any (fun i => (big.drop i).take l.length = l)
+      let missing := ((lists.splitOn ";").filterMap parseSocks).filter (fun peers =>
+        !peers.isEmpty && peers.all C17.sockWF &&
+        (match encode env peers (now % 65536) with
+         | some b => infixC b text
+         | none => false) &&
+        (encryptData env (plainBody peers (now % 65536))).headD 1 ≠ 0 &&
+        !C17.isInfix (C17.normPeers peers) implGot)
+      some (s!"got={socksStr (decode env text ttl (now % 65536))}",
+        if implObs = "panic" then "FAIL C17 beacon extraction panicked"
+        else if missing.isEmpty then "ok" else s!"FAIL C17 a beacon contained in the text was not found ({missing.length} of the embedded peer lists missing)")
+    | _, _, _, _ => some ("bad-op", "-")
   | ["bdec", pw, now, ttl, text] =>
     match Bytes.ofHex pw, now.toNat?, ttlOf ttl, utf8Text text with
     | some pw, some now, some ttl, some text =>
